@@ -76,4 +76,10 @@ theorem C14_canSendMany_spec (ps : List Packet) (rs : List TxResp) :
 example : wireOf (usartBodies ⟨false, 9, [1, 2, 3]⟩) = [0x00, 0x09, 0x02, 0xc0, 0x01, 0x06, 0x09, 0x03, 0x01, 0x02, 0x03] := by
   decide
 
+/-- CAN: when the controller never reports a displaced frame every send succeeds and exactly the concatenated frames
+are handed over, however often the mailboxes were busy -/
+theorem C14_canSendMany_exact (ps : List Packet) (rs : List TxResp) (h : ∀ r ∈ rs, r ≠ .displaced) :
+    canSendMany (ps.map canWire) rs = ((ps.map canWire).flatten, (ps.map canWire).map fun _ => .ok ()) :=
+  Ross.canSendMany_exact _ rs h
+
 end Ross.Props
